@@ -11,7 +11,7 @@ Import ListNotations.
 From BB Require Import BN Brute SpaceFacts TrapFacts PercolateFacts AttractorFacts Diagram Invariants Checks Filter
   Strict PetriNet Control Meta FilterFacts PetriNetFacts TrappistFacts DiagramStruct DiagramSem1 DiagramCache
   DiagramDepth DiagramComplete Termination ControlFacts MetaFacts Candidates StrictFacts MinExpandFacts CandidatesFacts SymbolicTest SymbolicTestFacts Signed ReductionFacts ControlFacts2 Main Blocks BlocksFacts ObsFacts OwnerFacts CandidatesTerm
-  PartialOwner BlockMath BlockComplete ASeeds ASeedsFacts LogChecks SkipRule SkipRuleFacts Names NamesFacts Perm PermFacts SCC SCCFacts SCCStruct ControlFacts3 SCCTerm FilterSym Main2 StrategyFacts ControlFacts4.
+  PartialOwner BlockMath BlockComplete ASeeds ASeedsFacts LogChecks SkipRule SkipRuleFacts Names NamesFacts Perm PermFacts SCC SCCFacts SCCStruct ControlFacts3 SCCTerm FilterSym Main2 StrategyFacts ControlFacts4 PyLib PySrc PySrcFacts.
 
 Theorem C20_find_node_exact : forall (N : net) (d : sd) (X : list (option bool)) (i : nat), SWF N d -> length X = nvars N -> find_node d X = Some i <-> i < size d /\ n_space (get d i) = X.
 Proof. exact find_node_exact. Qed.
@@ -52,6 +52,14 @@ Proof. exact expand_block_DepthOK. Qed.
 Theorem C20_aseeds_expansion_depth : forall (fuel : nat) (N : net) (cfg : config) (d : sd) (sz : option nat) (min_tape : list space) (tape : list (list nat)), 1 <= max_motifs cfg -> DiagramDepth.DInv N d -> let d' := fst (expand_aseeds fuel N cfg d sz min_tape tape) in DepthOK d' /\ EdgeDepth d'.
 Proof. exact expand_aseeds_DepthOK. Qed.
 
+(* translator tie: the node key generated from the current source of space_utils.space_unique_key is the model's space_key *)
+Theorem C20_source_space_unique_key : forall (n : nat) (d : pdict), wf_dict n d -> py_space_unique_key d n = Some (space_key (to_space n d)).
+Proof. exact py_space_unique_key_spec. Qed.
+
+(* IndexError exactly for unknown variables *)
+Theorem C20_source_space_unique_key_raises : forall (n : nat) (d : list (nat * bool)), (exists k : nat, In k (map fst d) /\ n <= k) -> py_space_unique_key d n = None.
+Proof. exact py_space_unique_key_raises. Qed.
+
 Print Assumptions C20_find_node_exact.
 Print Assumptions C20_find_node_none.
 Print Assumptions C20_step_extends.
@@ -64,3 +72,5 @@ Print Assumptions C20_space_key_inj.
 Print Assumptions C20_is_subgraph_spec.
 Print Assumptions C20_block_expansion_depth.
 Print Assumptions C20_aseeds_expansion_depth.
+Print Assumptions C20_source_space_unique_key.
+Print Assumptions C20_source_space_unique_key_raises.
